@@ -214,6 +214,17 @@ class ExprMixin(object):
         one = z3.simplify(w)
         is_one = z3.is_fp_value(one) and not one.isNaN() and not one.isInf() and \
             fractions.Fraction(num.to_py(one)) == 1
+        if is_one and not spec and self.root_contract is not None and "divmod1" in self.root_contract.lemmas_used:
+            # library lemma "cpython-float-divmod-by-one" (proved bit-precisely as its own unit from the full encoding
+            # below): for 0 <= x <= 2^53, divmod(x, 1.0) == (floor(x), x - floor(x)), the subtraction being exact.
+            lo, hi = num.const(0.0), num.const(2.0 ** 53)
+            self.oblige("lemma-pre:divmod1:0<=x<=2**53", z3.And(z3.fpLEQ(lo, x), z3.fpLEQ(x, hi)), kind="call-pre")
+            fl = z3.fpRoundToIntegral(z3.RTN(), x)
+            m = z3.fpSub(z3.RNE(), x, fl)
+            ctx.assume(z3.And(z3.fpEQ(z3.fpSub(z3.RTP(), x, fl), z3.fpSub(z3.RTN(), x, fl)),
+                              z3.fpLEQ(lo, m), z3.fpLT(m, num.const(1.0)),
+                              z3.fpEQ(z3.fpAdd(z3.RTP(), fl, m), x), z3.fpEQ(z3.fpAdd(z3.RTN(), fl, m), x)))
+            return fl, m
         if is_one:
             # fmod(x, 1.0) is exact and equals x - trunc(x) for finite x (assumption "cpython_fmod_one")
             mod = num.sub(x, z3.fpRoundToIntegral(z3.RTZ(), x))
@@ -227,14 +238,15 @@ class ExprMixin(object):
                               z3.Or(z3.fpIsZero(mod), z3.fpIsNegative(mod) == z3.fpIsNegative(x))))
             self.ctx.notes.append("fmod abstracted (exact, |m|<|w|, sign of x, identity below |w|)")
         zero = num.const(0.0)
-        div = num.div(num.sub(x, mod), w)
+        div = num.sub(x, mod) if is_one else num.div(num.sub(x, mod), w)   # y / 1.0 == y for every double
         adjust = z3.And(z3.Not(z3.fpIsZero(mod)), z3.fpLT(w, zero) != z3.fpLT(mod, zero))
         mod2 = z3.If(z3.fpIsZero(mod), z3.If(z3.fpLT(w, zero), z3.fpMinusZero(num.sort), z3.fpPlusZero(num.sort)),
                      z3.If(adjust, num.add(mod, w), mod))
         div2 = z3.If(adjust, num.sub(div, num.const(1.0)), div)
         fl = z3.fpRoundToIntegral(z3.RTN(), div2)
         fl2 = z3.If(z3.fpGT(num.sub(div2, fl), num.const(0.5)), num.add(fl, num.const(1.0)), fl)
-        floordiv = z3.If(z3.fpIsZero(div2), z3.fpMul(z3.RNE(), num.const(0.0), num.div(x, w)), fl2)
+        ratio = x if is_one else num.div(x, w)
+        floordiv = z3.If(z3.fpIsZero(div2), z3.If(z3.fpIsNegative(ratio), z3.fpMinusZero(num.sort), z3.fpPlusZero(num.sort)), fl2)
         return floordiv, mod2
 
     def compare(self, op, a, b, spec):
